@@ -59,13 +59,14 @@ git checkout -q -- . ; git clean -fdq -e SEED
 cd /verif
 for spec in "$@"; do
   id=${spec%%:*}; tier=quick; [ "$spec" != "$id" ] && tier=${spec##*:}
-  out=$(VERIF_OVERLAY=$OV/overlay.json VERIF_ROOT_OUT=$(mktemp -d /tmp/verif.seedout.XXXXXX) bin/check "$id" "$tier" 2>&1); rc=$?
+  so=$(mktemp -d /tmp/verif.seedout.XXXXXX); mkdir -p "$so/evidence" "$so/replays"; cp /verif/known_findings.json "$so/"
+  out=$(VERIF_OVERLAY=$OV/overlay.json VERIF_ROOT_OUT=$so bin/check "$id" "$tier" 2>&1); rc=$?
   sig=$(echo "$out" | grep -m1 'signature:' | sed 's/^ *signature: //')
   echo "  check $id $tier: exit=$rc ${sig}"
   res="$res{\"check\":\"$id\",\"tier\":\"$tier\",\"exit\":$rc,\"first_signature\":$(python3 -c 'import json,sys;print(json.dumps(sys.argv[1]))' "$sig")},"
+  rm -rf "$so"
 done
 rm -rf "$OV"
-rm -rf /tmp/verif.seedout.*
 python3 - "$D" "[${res%,}]" <<'PY'
 import json,sys
 d=sys.argv[1]; runs=json.loads(sys.argv[2])
